@@ -382,6 +382,13 @@ Definition is_light_row (r : row) : bool := (10 <=? row_kind r) && (row_kind r <
 Definition is_fade_row (r : row) : bool := row_kind r =? 13.
 Definition row_of (sid : Z) (r : row) : bool := nth 0 r (-1) =? sid.
 
+(* When a key's removal delay expires at the very instant at which its show sets / removes / clears the same
+   light, whether the (then stale) delay still fires or was replaced first depends on the order of two timers
+   with equal deadlines, which asyncio does not promise.  The stacks and pending delays afterwards are the
+   same either way; the fade-out-ended rows at such coincidences are left out on both sides. *)
+Definition quiet_fade_rows (lrows frows : list row) : list row :=
+  filter (fun r => negb (existsb (fun q => (nth 1 q 0 =? nth 1 r 0) && (nth 3 q 0 =? nth 3 r 0)) lrows)) frows.
+
 Fixpoint zrange (k : Z) (n : nat) : list Z :=
   match n with O => [] | S n' => k :: zrange (k + 1) n' end.
 
@@ -393,7 +400,8 @@ Definition run (i : case_in) : case_out :=
   let sids := zrange 0 (length cfgs) in
   (map (fun sid => filter (fun r => row_of sid r && (row_kind r <? 10)) (w_trace w2)) sids,
    map (fun sid => filter (fun r => row_of sid r && is_light_row r) (w_trace w2)) sids,
-   map (fun sid => filter (fun r => row_of sid r && is_fade_row r) (w_trace w2)) sids,
+   map (fun sid => quiet_fade_rows (filter (fun r => row_of sid r && is_light_row r) (w_trace w2))
+                                   (filter (fun r => row_of sid r && is_fade_row r) (w_trace w2))) sids,
    snaps ++ [snapshot w2],
    map show_final (w_shows w2)).
 
